@@ -5,6 +5,7 @@ CONSTANTS
   PerRound = 1
   NotifyMode = "token"
   TempApps = {2, 3}
+  TwoPhaseApps = {}
   ExitMode = "recheck"
 INVARIANTS FIFO LockOK
 CONSTRAINT Mark
